@@ -197,9 +197,10 @@ def _gen_wiring(rng: random.Random, tier: str) -> dict:
         futs = [f"f{i}" for i in range(n_fut)]
         n_wait = rng.randrange(2, 6)
         directs = rng.sample(futs, min(n_fut, rng.randrange(1, n_wait + 1)))
+        max_depth = rng.choice([2, 2, 3, 4])
 
         def tree(depth=0):
-            if depth >= 2 or (depth > 0 and rng.random() < 0.6):
+            if depth >= max_depth or (depth > 0 and rng.random() < 0.55):
                 return rng.choice(futs)
             k = rng.randrange(2, 4)
             return {rng.choice(["any", "all"]): [tree(depth + 1) for _ in range(k)]}
@@ -227,7 +228,7 @@ def _gen_wiring(rng: random.Random, tier: str) -> dict:
                     "kind": "emit",
                     "events": [],
                     "cancel": [],
-                    "resolve": [[f, value[0] * 10 + i] for i, f in enumerate(names)],
+                    "resolve": [[f, value[0] * 10 + i if rng.random() < 0.8 else rng.choice([None, 0, "", False, [], ["<exc>", "TimeoutError", "late"]])] for i, f in enumerate(names)],
                     "style": "list",
                 }
                 slots.append((n_wait + j, t))
